@@ -1,11 +1,19 @@
 /-
   C09 (rows part) — the row-level views: ReadRows(all / visible only), ReadDeletedRows, ReadRowsWithDeleted.
-  Property theorems only; helper lemmas are in Proofs/RowsViews.lean.  (`C09_bits`, `C09_local`,
-  `C09_disjoint` on infomasks are in Props/C09.lean; ReadTuplesInRange's switch is area `block`.)
+  Property theorems only; helper lemmas are in Proofs/RowsViews.lean, Proofs/RowsDeleted.lean.  (`C09_bits`, `C09_local`,
+  `C09_disjoint` on infomasks are in Props/C09.lean; ReadTuplesInRange's switch is area `block`; ScanAllDeletedRows is
+  Props/C09Scan.lean.)
+
+  Two layers.  Model-internal, for ARBITRARY bytes: `C09_exclusive`, `C09_views`, `C09_partition`, `C09_deleted`,
+  `C09_decode_ignores_header` (how the views relate to each other, whatever the file is).  Spec-level, for well-formed
+  FILES built by the Spec encoders from row versions with arbitrary header fields: `C09_deleted_file`,
+  `C09_withDeleted_file` (which stored versions each view reports, and with which values; the live view is
+  `C03.C03_file`), `C09_recovered_tuple`, `C09_recovered_file` (a recovered row = the row the same stored attributes
+  decoded to before the delete).
 -/
-import PgVerif.Proofs.RowsViews
+import PgVerif.Proofs.RowsDeleted
 namespace PgVerif.Props.C09Rows
-open PgVerif PgVerif.Model PgVerif.Proofs PgVerif.Proofs.Rows
+open PgVerif PgVerif.Model PgVerif.Spec PgVerif.Proofs PgVerif.Proofs.Rows
 
 /-- No tuple is both live and deleted, whatever its header flags are (the two predicates the readers
 use are mutually exclusive as Boolean functions of the three hint flags). -/
@@ -19,8 +27,11 @@ row.  Then ReadRows(all) returns the rows of `rs` in order; ReadRows(visible onl
 the pairs whose tuple satisfies its own `isVisible`; ReadRowsWithDeleted returns that same live list and the
 rows of the pairs whose tuple satisfies its own `isDeleted`.  Hence live ⊆ all and deleted ⊆ all as
 sub-multisets (they are sub-lists selected by predicates on the tuple alone), and by `C09_exclusive` no pair
-is selected by both: the live view and the deleted view are disjoint sub-multisets of the all-tuples view.
-(The hypothesis `hrs` only says that the scalar decoder does not fault on these tuples; see C10.) -/
+is selected by both (`C09_partition` states the disjoint-sub-multiset clause with `List.Perm`).
+(The hypothesis `hrs` only says that the scalar decoder does not fault on these tuples; see C10.  The third conjunct
+is close to the model's own definition: Model.readRowsWithDeleted is written as decode-all-then-filter — the Go loop
+decodes every tuple before classifying it, so this is the same computation — and the conjunct only removes the redundant
+`!isVisible &&`.  What the two halves contain for a stored file is `C09_withDeleted_file`.) -/
 theorem C09_views (dec : Dec) (f : Bytes) (cols : List Column) (es : List TupleEntry) (rs : List (HeapTuple × Row))
     (hes : readTuples f false = .ok es) (hrs : decodedEntries dec cols es = .ok rs) :
     readRows dec f cols false = .ok (rs.map (·.2)) ∧
@@ -48,6 +59,20 @@ theorem C09_views (dec : Dec) (f : Bytes) (cols : List Column) (es : List TupleE
     have := C09_exclusive x.1
     cases hv : x.1.isVisible <;> cases hd : x.1.isDeleted <;> simp [hv, hd] at this ⊢
 
+/-- **Live and deleted are disjoint sub-multisets of the all-tuples view.**  For every byte string `f` on which
+the decoder does not fault: the live view, the deleted view and a rest (the rows of the tuples that are neither:
+aborted or in-progress inserts, in-progress deletes) together are a permutation of the all-tuples view — every row of
+the all-tuples view is in at most one of the two views, with its multiplicity. -/
+theorem C09_partition (dec : Dec) (f : Bytes) (cols : List Column) (es : List TupleEntry) (rs : List (HeapTuple × Row))
+    (hes : readTuples f false = .ok es) (hrs : decodedEntries dec cols es = .ok rs) :
+    ∃ all live del rest, readRows dec f cols false = .ok all ∧ readRows dec f cols true = .ok live ∧
+      readRowsWithDeleted dec f cols = .ok (live, del) ∧ List.Perm (live ++ del ++ rest) all := by
+  obtain ⟨h1, h2, h3⟩ := C09_views dec f cols es rs hes hrs
+  refine ⟨_, _, _, (rs.filter fun x => !x.1.isVisible && !x.1.isDeleted).map (·.2), h1, h2, h3, ?_⟩
+  rw [← List.map_append, ← List.map_append]
+  exact (three_way (fun x : HeapTuple × Row => x.1.isVisible) (fun x => x.1.isDeleted) rs
+    (fun x _ => C09_exclusive x.1)).map _
+
 /-- **Deleted-row recovery.**  With a non-empty schema, ReadDeletedRows reports one entry per tuple whose own
 `isDeleted` holds (no other tuple, none missing), and their decoded rows are exactly the deleted view of
 `C09_views`. -/
@@ -59,13 +84,167 @@ theorem C09_deleted (dec : Dec) (f : Bytes) (cols : List Column) (hne : cols ≠
   obtain ⟨ds, h1, h2, h3⟩ := collect_deleted dec cols hne es rs hrs
   exact ⟨ds, by simp only [readDeletedRows, hes, ok_bind, h1], h2, h3⟩
 
-/-- **A recovered row decodes to the values it had when it was live.**  DecodeTuple does not read the tuple
-header at all (xmin/xmax, commit and delete hint bits, natts, t_hoff): a deleted tuple decodes to exactly what
-the same bitmap and data bytes decode to under any other header, in particular the header it had before the
-delete set its xmax / hint bits. -/
-theorem C09_recovered (dec : Dec) (t : HeapTuple) (hdr' : TupleHeader) (cols : List Column) :
+/-- **The record-level frame fact behind `C09_recovered_file`** (not the property clause itself): DecodeTuple does
+not read the parsed header record at all (commit and delete hint flags, natts, t_hoff): the same bitmap and data
+bytes decode alike under any header record. -/
+theorem C09_decode_ignores_header (dec : Dec) (t : HeapTuple) (hdr' : TupleHeader) (cols : List Column) :
     decodeTuple dec { t with header := hdr' } cols = decodeTuple dec t cols :=
   decodeTuple_header dec t.header hdr' t.bitmap t.data cols
+
+/-! ## Spec-level statements: the views of a well-formed heap FILE, from the stored row versions
+
+`vers` are the row versions the file stores (Spec side: `Spec.formTupleH` = heap_form_tuple with arbitrary xmin /
+xmax / cid / t_ctid / t_infomask2 flag bits, any t_infomask), `expRow dec cols r` is the row `C03_layout` says a
+reader must report for `r` — a function of the schema, the attribute values and the stored attribute count, not of
+any header field or hint bit. -/
+
+/-- **ReadDeletedRows on a stored file.**  For every well-formed heap file (any pages, zero pages, line pointers
+in any state and order, trailing partial block) whose stored tuples are the row versions `vers` (each given with
+the byte offset of the page that holds it; `hvers` ties both to the file) of schema `cols`: ReadDeletedRows reports
+exactly the versions whose own t_infomask says "deleter committed" (HEAP_XMAX_COMMITTED set, HEAP_XMAX_INVALID
+clear) — no other version, none missing, in scan order — each with the offset of its page, the length of its data
+area, and the row decoded as C03 says. -/
+theorem C09_deleted_file (dec : Dec) (cols : List Col) (mcols : List Column) (bs : List Block) (tail : Bytes)
+    (vers : List (RowVer × Nat)) (hb : ∀ b ∈ bs, b.WF) (ht : tail.length < 8192)
+    (hm : ColsMatch 0 mcols cols) (hne : mcols ≠ [])
+    (hvers : fileEntries bs = vers.map fun x => (formVer cols x.1, x.2)) (hwf : ∀ x ∈ vers, x.1.2.WF cols) :
+    readDeletedRows dec (encHeap bs tail) mcols =
+      collectM (expDeleted dec cols) (vers.filter fun x => deletedBits x.1.2.infomask) := by
+  unfold readDeletedRows
+  rw [scan_entries bs tail false hb ht]
+  simp only [ok_bind, Bool.not_false, Bool.true_or, Rows.filter_true, hvers, List.map_map]
+  rw [← Rows.collectM_map (entryOf ∘ fun x : RowVer × Nat => (formVer cols x.1, x.2)) (deletedStep dec mcols) vers,
+    collectM_filter_none _ (fun x : RowVer × Nat => deletedBits x.1.2.infomask)]
+  · apply collectM_congr
+    intro x hx
+    obtain ⟨hx, hd⟩ := List.mem_filter.mp hx
+    simp only [Function.comp]
+    rw [deletedStep_formed dec cols mcols x hm (hwf x hx) hne, if_pos hd]
+  · intro x hx hd
+    simp only [Function.comp]
+    rw [deletedStep_formed dec cols mcols x hm (hwf x hx) hne, if_neg (by simp [hd])]
+    rfl
+
+/-- **ReadDeletedRows without a schema.**  For every well-formed heap file — ANY stored tuples, not only formed rows —
+and no columns: one entry per stored tuple whose own t_infomask says "deleter committed", in scan order, with the offset
+of its page and the length of its data area, and no decoded row. -/
+theorem C09_deleted_file_nocols (dec : Dec) (bs : List Block) (tail : Bytes) (hb : ∀ b ∈ bs, b.WF) (ht : tail.length < 8192) :
+    (readDeletedRows dec (encHeap bs tail) []).map (fun ds => ds.map fun d => (d.pageOffset, d.data.isNone, d.rawSize)) =
+      .ok (((fileEntries bs).filter fun p => deletedBits p.1.infomask).map fun p => (p.2, true, p.1.data.length)) := by
+  unfold readDeletedRows
+  rw [scan_entries bs tail false hb ht]
+  simp only [ok_bind, Bool.not_false, Bool.true_or, Rows.filter_true]
+  exact deleted_nocols_full dec (fileEntries bs)
+
+/-- **ReadRowsWithDeleted on a stored file.**  Same files.  Decode every stored version in scan order (`decodeAll`:
+a decoder fault on any version is the fault of the call); the first result is then exactly the rows of the
+versions whose own hint bits say live (inserter committed, no deleter committed), the second exactly the rows of
+the versions whose hint bits say deleter committed — both in scan order, every row as C03 says. -/
+theorem C09_withDeleted_file (dec : Dec) (cols : List Col) (mcols : List Column) (bs : List Block) (tail : Bytes)
+    (vers : List RowVer) (hb : ∀ b ∈ bs, b.WF) (ht : tail.length < 8192)
+    (hm : ColsMatch 0 mcols cols) (hne : mcols ≠ [])
+    (hvers : fileTuples bs = vers.map (formVer cols)) (hwf : ∀ v ∈ vers, v.2.WF cols) :
+    readRowsWithDeleted dec (encHeap bs tail) mcols =
+      (decodeAll (fun v : RowVer => expRow dec cols v.2) vers >>= fun all =>
+        pure ((all.filter fun q => liveBits q.1.2.infomask).map (·.2),
+              (all.filter fun q => deletedBits q.1.2.infomask).map (·.2))) := by
+  obtain ⟨es, hes, hmap⟩ := scan_tuples bs tail false hb ht
+  unfold readRowsWithDeleted
+  rw [hes]
+  simp only [ok_bind]
+  have hde : decodedEntries dec mcols es =
+      (decodeAll (fun v : RowVer => expRow dec cols v.2) vers >>= fun all =>
+        pure (all.map fun q => (mtuple (formVer cols q.1), q.2))) := by
+    unfold decodedEntries
+    rw [Rows.collectM_map (fun e : TupleEntry => e.tuple)
+      (fun t => decodeTuple dec t mcols >>= fun r => pure (r.map fun row => (t, row))) es, hmap]
+    simp only [Bool.not_false, Bool.true_or, Rows.filter_true, hvers, List.map_map]
+    rw [← Rows.collectM_map (mtuple ∘ formVer cols)
+      (fun t => decodeTuple dec t mcols >>= fun r => pure (r.map fun row => (t, row))) vers,
+      ← collectM_decodeAll (fun v : RowVer => expRow dec cols v.2) (fun v row => (mtuple (formVer cols v), row)) vers]
+    apply collectM_congr
+    intro v hv
+    simp only [Function.comp, formVer]
+    rw [decodeTuple_formed dec cols mcols v.1 v.2 hm (hwf v hv) hne]
+    cases expRow dec cols v.2 <;> rfl
+  rw [hde]
+  cases decodeAll (fun v : RowVer => expRow dec cols v.2) vers with
+  | error e => rfl
+  | ok all =>
+    simp only [ok_bind, pure_eq_ok, List.filter_map, List.map_map]
+    congr 2
+    · congr 1
+      apply List.filter_congr
+      intro q _
+      simp only [Function.comp, formVer, isVisible_mtuple, liveBits_form]
+    · congr 1
+      apply List.filter_congr
+      intro q _
+      simp only [Function.comp, formVer, isVisible_mtuple, isDeleted_mtuple, liveBits_form, deletedBits_form, isDeleted_excl]
+
+/-- **Two byte images of one row decode alike.**  The stored bytes of a row before and after a delete / update
+(other xmin / xmax / cid / t_ctid, other t_infomask2 flag bits, other t_infomask hint bits: `h, m` vs `h', m'`),
+run through ParseHeapTuple and DecodeTuple, give the same row. -/
+theorem C09_recovered_tuple (dec : Dec) (cols : List Col) (mcols : List Column) (h h' : HdrFields) (r : RowV) (m m' : Nat)
+    (hh : h.WF) (hh' : h'.WF) (hmk : m < 65536) (hmk' : m' < 65536)
+    (hm : ColsMatch 0 mcols cols) (hwf : r.WF cols) (hne : mcols ≠ []) :
+    (parseHeapTuple (encTuple (formTupleH h' cols (r.withMask m'))) >>= fun ot =>
+        match ot with
+        | some t => decodeTuple dec t mcols
+        | none => pure none) =
+    (parseHeapTuple (encTuple (formTupleH h cols (r.withMask m))) >>= fun ot =>
+        match ot with
+        | some t => decodeTuple dec t mcols
+        | none => pure none) := by
+  exact (Props.C03.C03_scanned dec cols mcols h' _ hh' hm (withMask_WF cols r m' hwf hmk') hne).trans
+    (Props.C03.C03_scanned dec cols mcols h _ hh hm (withMask_WF cols r m hwf hmk) hne).symm
+
+/-- **Each recovered deleted row decodes to the values it had when it was live.**  Two well-formed files store,
+position by position, the same rows `xs` (attribute values and stored attribute count): `before` holds row `x.row`
+under header fields `x.hdrB` and t_infomask `x.maskB` (say: live), `after` holds it under `x.hdrA`, `x.maskA` (say:
+after a DELETE or UPDATE set xmax, t_ctid, HEAP_XMAX_COMMITTED, HEAP_KEYS_UPDATED / HOT_UPDATED) in the page at
+`x.offA`.  The page layouts of the two files are unrelated (pruning may have moved tuples).  If the all-tuples view
+of `before` is `all` (one row per stored version, in scan order), then ReadDeletedRows on `after` recovers exactly
+the rows `all` has at the positions whose `after` hint bits say "deleter committed": each recovered row equals,
+value for value, the row the same stored attributes decoded to in `before`. -/
+theorem C09_recovered_file (dec : Dec) (cols : List Col) (mcols : List Column)
+    (before after : List Block) (tailB tailA : Bytes) (xs : List Twice) (all : List Row)
+    (hbB : ∀ b ∈ before, b.WF) (hbA : ∀ b ∈ after, b.WF) (htB : tailB.length < 8192) (htA : tailA.length < 8192)
+    (hm : ColsMatch 0 mcols cols) (hne : mcols ≠ [])
+    (hB : fileTuples before = xs.map fun x => formVer cols x.verB)
+    (hA : fileEntries after = xs.map fun x => (formVer cols x.verA.1, x.verA.2))
+    (hwf : ∀ x ∈ xs, x.row.WF cols ∧ x.maskB < 65536 ∧ x.maskA < 65536)
+    (hall : readRows dec (encHeap before tailB) mcols false = .ok all) :
+    ∃ ds, readDeletedRows dec (encHeap after tailA) mcols = .ok ds ∧
+      ds.map (·.data) = ((xs.zip all).filter fun q => deletedBits q.1.maskA).map fun q => some q.2 := by
+  -- the all-tuples view of `before`
+  have hB' : fileTuples before = (xs.map Twice.verB).map (formVer cols) := by rw [hB, List.map_map]; rfl
+  rw [Props.C03.C03_file dec cols mcols before tailB false (xs.map Twice.verB) hbB htB hm hne hB'
+    (by intro v hv
+        obtain ⟨x, hx, rfl⟩ := List.mem_map.mp hv
+        exact withMask_WF cols x.row x.maskB (hwf x hx).1 (hwf x hx).2.1)] at hall
+  simp only [Bool.not_false, Bool.true_or, Rows.filter_true] at hall
+  rw [← Rows.collectM_map Twice.verB] at hall
+  have hall' : collectM (fun x : Twice => expRow dec cols x.row >>= fun b => pure (some b)) xs = .ok all := by
+    rw [← hall]
+    apply collectM_congr
+    intro x _
+    simp only [Twice.verB, RowV.withMask, expRow]
+    cases expectedCols (varlenaVal dec) cols x.row.vals x.row.natts <;> rfl
+  have hdec := decodeAll_of_collect (fun x : Twice => expRow dec cols x.row) xs all hall'
+  -- the deleted view of `after`
+  have hA' : fileEntries after = (xs.map Twice.verA).map fun x => (formVer cols x.1, x.2) := by rw [hA, List.map_map]; rfl
+  rw [C09_deleted_file dec cols mcols after tailA (xs.map Twice.verA) hbA htA hm hne hA'
+    (by intro v hv
+        obtain ⟨x, hx, rfl⟩ := List.mem_map.mp hv
+        exact withMask_WF cols x.row x.maskA (hwf x hx).1 (hwf x hx).2.2)]
+  rw [List.filter_map, ← Rows.collectM_map Twice.verA]
+  have hstep : collectM (fun x : Twice => expDeleted dec cols x.verA) (xs.filter ((fun x : RowVer × Nat => deletedBits x.1.2.infomask) ∘ Twice.verA)) =
+      collectM (fun x : Twice => expRow dec cols x.row >>= fun row =>
+        pure (some (⟨x.offA, some row, x.row.dataLen cols⟩ : DeletedRow))) (xs.filter fun x => deletedBits x.maskA) := rfl
+  rw [hstep, collectM_filter_decodeAll (fun x : Twice => expRow dec cols x.row)
+    (fun x row => (⟨x.offA, some row, x.row.dataLen cols⟩ : DeletedRow)) (fun x => deletedBits x.maskA) xs _ hdec]
+  exact ⟨_, rfl, by simp [List.map_map, Function.comp_def]⟩
 
 /-- non-vacuity of `C09_views`: a file holding one live and one deleted tuple, and what the views are -/
 example : ∃ t, parseHeapTuple (zeros 18 ++ le 2 1 ++ le 2 0x0500 ++ [24, 0, 7]) = .ok (some t) ∧
@@ -75,5 +254,25 @@ example : ∃ t, parseHeapTuple (zeros 18 ++ le 2 1 ++ le 2 0x0500 ++ [24, 0, 7]
   · decide
   · decide
   · rfl
+
+/-! ### non-vacuity of the file-level statements: a page holding a live version and the dead version an UPDATE left -/
+
+def exVerCols : List Col := [⟨[97], 23, 4, 4⟩]
+def exVerMCols : List Column := [⟨[97], 23, 4, 1, 105⟩]
+def exLive : RowVer := ({ xmin := 700 }, { vals := [some (.fixed (le 4 7))], natts := 1, infomask := 0x0900 })
+/-- xmax set, t_ctid → (0,1), HOT_UPDATED | KEYS_UPDATED, HEAP_XMIN_COMMITTED | HEAP_XMAX_COMMITTED -/
+def exDead : RowVer :=
+  ({ xmin := 699, xmax := 700, ctid := [0, 0, 0, 0, 1, 0], flags2 := 12 }, { vals := [some (.fixed (le 4 8))], natts := 1, infomask := 0x0500 })
+def exVerPage : Page :=
+  { hdr0 := zeros 12, special := 8192, version := 4, prune := 0, lps := [.normal 1, .normal 0], free := zeros 8104,
+    slots := [([], formVer exVerCols exLive), ([], formVer exVerCols exDead)], tail := [] }
+
+example : exVerPage.WF ∧ fileEntries [.page exVerPage] = [(exDead, 0), (exLive, 0)].map (fun x => (formVer exVerCols x.1, x.2)) := by
+  decide +kernel
+example : ColsMatch 0 exVerMCols exVerCols := by simp only [ColsMatch, ColMatch, exVerMCols, exVerCols]; decide
+example : exLive.2.WF exVerCols ∧ exDead.2.WF exVerCols := by decide
+/-- what `C09_deleted_file` says ReadDeletedRows reports for that page (decoder: "length of the payload") -/
+example : collectM (expDeleted (fun b _ => pure (.int b.length)) exVerCols)
+    ([(exDead, 0), (exLive, 0)].filter fun x => deletedBits x.1.2.infomask) = .ok [⟨0, some [([97], .int 4)], 4⟩] := by rfl
 
 end PgVerif.Props.C09Rows
